@@ -126,11 +126,24 @@ Definition grow (data : option addr) (item_size allocated : N) : M (option (N * 
       end
   end.
 
+(* the assertions of cbor_bytestring_add_chunk on its second argument (bytestrings.c:95-96):
+     CBOR_ASSERT(cbor_isa_bytestring(chunk)); CBOR_ASSERT(cbor_bytestring_is_definite(chunk));
+   cbor_string_add_chunk has no such lines: it stores whatever it is given *)
+Definition chunk_assert (text : bool) (chunk : addr) : M unit :=
+  if text then ret tt else
+    cc <- rd_item chunk ;;
+    match snd cc with
+    | NStr false _ _ => ret tt
+    | NChunked false _ _ _ _ => fail (FAssert 21)
+    | _ => fail (FAssert 20)
+    end.
+
 (* cbor_bytestring_add_chunk / cbor_string_add_chunk *)
 Definition add_chunk (a chunk : addr) : M bool :=
   c <- rd_item a ;;
   match snd c with
   | NChunked text hdr arr cap chunks =>
+      chunk_assert text chunk ;;;
       touch_data false (Some hdr) ;;;
       (if len chunks =? cap then
          g <- grow arr SZ_PTR cap ;;
